@@ -30,6 +30,12 @@ ALLOWED_AXIOMS = {
 }
 
 
+# primitive integers / floats of the standard library and the axioms it declares about them (brought in by the
+# `interval` tactic, C20's shield range): listed in DESIGN.md section 6
+ALLOWED_PREFIXES = ("Uint63.", "PrimInt63.", "PrimFloat.", "FloatAxioms.", "FloatOps.", "Uint63Axioms.", "Sint63.",
+                    "PrimString.", "Classical_Prop.")
+
+
 def ensure_repo_on_path():
     if sys.path[0] != REPO:
         sys.path.insert(0, REPO)
@@ -235,7 +241,8 @@ def build_props(prop_id, models=()):
                discharged=len(theorems) if ok else count_discharged(log, theorems),
                axioms=axioms, translator_errors=terr, theorems=theorems, forbidden=forbidden)
     bad = sorted(a for a in axioms if a.split(" ")[0] not in ALLOWED_AXIOMS
-                 and a.split(".")[-1] not in ALLOWED_AXIOMS)
+                 and a.split(".")[-1] not in ALLOWED_AXIOMS
+                 and not a.startswith(ALLOWED_PREFIXES))
     res["unexpected_axioms"] = bad
     if bad:
         res["ok"] = False
